@@ -86,15 +86,21 @@ def _check_one(res, case, n, w, wt, C, tau, last_pos, u0, tag):
     if out.min() < 0 or out.max() >= m:
         res.violate("syst:range", f"index outside [0,{m}) : {out.tolist()} at u0={u0!r}", dict(case, u0=u0))
         return None
+    zsel = [int(i) for i in set(out.tolist()) if wt[i] == 0.0]
+    if zsel:
+        res.violate("syst:zero-weight-selected", f"index {zsel[0]} has weight 0 but was selected (n={n}, u0={u0!r}, w={list(w)[:8]}): copies must be floor/ceil of n*w_i = 0", dict(case, u0=u0))
+        return None
     if np.any(np.diff(out) < 0):
         res.violate("syst:order", f"indices not non-decreasing: {out.tolist()} at u0={u0!r}", dict(case, u0=u0))
     lo, hi = ref.tooth_window(n, C, F(u0), tau, last_pos)
     for i in range(n):
         a, b, r = lo[i], hi[i], int(out[i])
+        # a tooth beyond the total mass (float / in-tolerance deficit) is absorbed by the LAST INDEX THAT CARRIES WEIGHT:
+        # a zero-weight index must never be selected (copies of i are floor/ceil of n*w_i = 0)
         if a == -1:
-            ok = last_pos <= r <= m - 1
+            ok = r == last_pos
         elif b == -1:
-            ok = a <= r <= m - 1
+            ok = a <= r <= last_pos
         else:
             ok = a <= r <= b
         if not ok:
